@@ -40,6 +40,12 @@ structure IntRes where
   err : Option NumErr
   deriving Repr, DecidableEq
 
+/-- the reader's view: a value only when `err == nil` -/
+def IntRes.toExcept (r : IntRes) : Except NumErr Int :=
+  match r.err with
+  | none => .ok r.val
+  | some e => .error e
+
 /-- `Atoi` fast path: the `for _, ch := range s` loop; `none` = the syntax-error return -/
 def atoiLoop : Bytes → Int → Option Int
   | [], n => some n
